@@ -576,7 +576,7 @@ double Units::scalingFactor(const UnitsPtr &units1, const UnitsPtr &units2, bool
     bool updateUnits1 = false;
     bool updateUnits2 = false;
 
-    if ((units1 != nullptr) && (units2 != nullptr)) {
+    if ((units1 != nullptr) && (units2 != nullptr) && units1->isDefined() && units2->isDefined()) {
         double multiplier = 0.0;
         updateUnits1 = updateUnitMultiplier(units1, -1, multiplier);
         updateUnits2 = updateUnitMultiplier(units2, 1, multiplier);
